@@ -15,7 +15,8 @@
 (*           ("first", "cont" [+"+fin"], "ping", "pong", "close"; "raw" for   *)
 (*           an extra; "bad"/"foreign.." never accepted); ok = it succeeded   *)
 (*   close   net.Conn.Close by `proc`, same total order                       *)
-(*   ret     call number `call` of `proc` returned class `res` (recorded some *)
+(*   ret     call number `call` of `proc` returned class `res` ("nil",        *)
+(*           "closesent", "timeout", "other"; recorded some                   *)
 (*           time AFTER it returned: accepted once the model's call returned) *)
 (*   end     every goroutine is back                                          *)
 (* frames  = the replayer's RFC 6455 tokenizer over the concatenated bytes of *)
@@ -82,7 +83,7 @@ ModelFrames(k) ==
                 ELSE <<[cls |-> "partial", w0 |-> k, w1 |-> k]>>
        ELSE IF e.part = "hdr"
          THEN <<[cls |-> DataCls(e.call, e.frame), w0 |-> k, w1 |-> k]>> \o ModelFrames(k + 1)
-       ELSE <<[cls |-> prog.ctl[KIdx(e.proc)][e.call], w0 |-> k, w1 |-> k]>> \o ModelFrames(k + 1)
+       ELSE <<[cls |-> Code(prog.ctl[KIdx(e.proc)][e.call]), w0 |-> k, w1 |-> k]>> \o ModelFrames(k + 1)
 
 \* the complete messages are a prefix 1..n of the program (InOrder)
 Prefix(n) == [m \in 1..n |-> m]
